@@ -3,7 +3,7 @@
    num_occurrences, a unique tag and further data vectors); no size bounds anywhere. *)
 From Coq Require Import List ZArith QArith Qcanon Bool Arith Permutation Sorting.Sorted.
 From Dimod Require Import Base.Util Model.Poly Model.Samples Model.SSet Proofs.SamplesFacts Proofs.SSetFacts
-  Proofs.SSetAgg Proofs.SSetMore.
+  Proofs.SSetAgg Proofs.SSetMore Proofs.SSetSort Model.ChkC14.
 Import ListNotations.
 Open Scope Qc_scope.
 
@@ -281,6 +281,78 @@ Theorem C14_sort_columns_unsortable_id :
     sort_columns K sortl s = s.
 Proof. exact sort_columns_unsortable_id. Qed.
 Print Assumptions C14_sort_columns_unsortable_id.
+
+(* ---- code shape of the sorted selections: record[np.argsort(key)[selector]] and first ---- *)
+(* for EVERY admissible outcome of np.argsort (any kind) *)
+Theorem C14_slice_sorted_code_spec :
+  forall (key : row -> Qc) rows order idx,
+    argsort_contract (map key rows) order ->
+    NoDup idx -> Forall (fun i => (i < length rows)%nat) idx ->
+    map key (slice_sorted_code order idx rows) = map (fun i => nth i (qsort (map key rows)) 0) idx
+    /\ exists rest, Permutation (slice_sorted_code order idx rows ++ rest) rows.
+Proof. exact slice_sorted_code_spec. Qed.
+Print Assumptions C14_slice_sorted_code_spec.
+
+Theorem C14_first_code_spec :
+  forall rows order,
+    argsort_contract (map en rows) order -> rows <> [] ->
+    exists r, first_code order rows = Some r /\ In r rows /\ forall r', In r' rows -> (en r <= en r')%Qc.
+Proof. exact first_code_spec. Qed.
+Print Assumptions C14_first_code_spec.
+
+(* the mirrored np.argsort(kind='stable') meets the contract, and selecting through it is the stable
+   insertion sort of the rows (the deterministic replay model slice_stable) *)
+Theorem C14_argsort_stable_contract : forall keys, argsort_contract keys (argsort_stable keys).
+Proof. exact argsort_stable_contract. Qed.
+Print Assumptions C14_argsort_stable_contract.
+
+Theorem C14_argsort_stable_is_rsort :
+  forall (key : row -> Qc) rows, select rows (argsort_stable (map key rows)) = rsort key rows.
+Proof. exact argsort_stable_is_rsort. Qed.
+Print Assumptions C14_argsort_stable_is_rsort.
+
+Theorem C14_slice_stable_is_code_shape :
+  forall k a b c s, c <> Some 0%Z ->
+    rws (slice_stable k a b c s)
+    = slice_sorted_code (argsort_stable (map (key_of k) (rws s))) (slice_indices (length (rws s)) a b c) (rws s).
+Proof. exact slice_stable_is_code_shape. Qed.
+Print Assumptions C14_slice_stable_is_code_shape.
+
+(* what the check accepts as an observed argsort is an admissible argsort *)
+Theorem C14_argsort_ok_b_sound :
+  forall keys order, argsort_ok_b keys order = true -> argsort_contract keys order.
+Proof. exact argsort_ok_b_sound. Qed.
+Print Assumptions C14_argsort_ok_b_sound.
+
+(* ---- future-backed sample sets as a state machine over (receiver, returned handle) ---- *)
+Theorem C14_deferred_returned_eq_resolved :
+  forall K base c d d1 ret s0,
+    dstep K base c d = Some (d1, ret) -> dresolve K base d = Some s0 ->
+    dresolve K base ret = match apply K (dcall_op c) s0 with Ok s' => Some s' | Fail _ => None end.
+Proof. exact dstep_returned_eq. Qed.
+Print Assumptions C14_deferred_returned_eq_resolved.
+
+Theorem C14_deferred_receiver_not_inplace :
+  forall K base c d d1 ret,
+    dcall_inplace c = false -> dstep K base c d = Some (d1, ret) -> dresolve K base d1 = dresolve K base d.
+Proof. exact dstep_receiver_not_inplace. Qed.
+Print Assumptions C14_deferred_receiver_not_inplace.
+
+Theorem C14_deferred_receiver_inplace :
+  forall K base c d d1 ret,
+    dcall_inplace c = true -> dstep K base c d = Some (d1, ret) ->
+    (forall hooks v off, ~ (d = DPending hooks /\ c = DChangeVt v off true)) ->
+    dresolve K base d1 = dresolve K base ret.
+Proof. exact dstep_receiver_inplace. Qed.
+Print Assumptions C14_deferred_receiver_inplace.
+
+(* OPEN FINDING C14-deferred-inplace: the excluded case above really fails in the faithful model *)
+Theorem C14_deferred_inplace_change_vartype_receiver_refuted :
+  exists K base v off d1 ret,
+    dstep K base (DChangeVt v off true) (DPending []) = Some (d1, ret)
+    /\ dresolve K base d1 <> dresolve K base ret.
+Proof. exact deferred_inplace_change_vartype_receiver_refuted. Qed.
+Print Assumptions C14_deferred_inplace_change_vartype_receiver_refuted.
 
 (* the hypotheses are satisfiable on non-trivial data *)
 Example C14_aggregate_example :
